@@ -38,6 +38,7 @@ type c02cfg struct {
 	pClose   int
 	pReset   int
 	pDup     int
+	tieD     time.Duration
 }
 
 func c02Setup(rc *RunCtx) simrt.Config {
@@ -48,7 +49,10 @@ func c02Setup(rc *RunCtx) simrt.Config {
 	c.callers = 1 + r.Choose(4)
 	for i := 0; i < c.callers; i++ {
 		c.perCall = append(c.perCall, 1+r.Choose(3))
-		c.deadline = append(c.deadline, []time.Duration{0, 0, 20 * time.Second, 60 * time.Second}[r.Choose(4)])
+		// Far deadlines, plus short ones chosen from the server's latency set so that
+		// OTHER callers' contexts end at the very instant a reply arrives (a call
+		// whose own context has ended by then is outside the property).
+		c.deadline = append(c.deadline, []time.Duration{0, 0, 20 * time.Second, 60 * time.Second, time.Millisecond, 50 * time.Millisecond, time.Second}[r.Choose(7)])
 	}
 	c.pZero = []int{100, 80, 50}[r.Choose(3)]
 	if c.kind.stream() {
@@ -58,6 +62,22 @@ func c02Setup(rc *RunCtx) simrt.Config {
 	if c.kind.pipelined() {
 		c.pDup = []int{0, 0, 20}[r.Choose(3)]
 	}
+	if r.Choose(6) == 0 {
+		// "tie" family: non-pipelined connections shared by several callers, every
+		// reply arrives after exactly tieD, and some callers' deadlines are exactly
+		// tieD: a context ends at the instant its reply arrives while other callers
+		// (whose contexts are live) reuse the same connection.
+		c.tieD = []time.Duration{time.Millisecond, 50 * time.Millisecond}[r.Choose(2)]
+		c.kind = []TransportKind{TkTCP, TkReuse}[r.Choose(2)]
+		c.callers = 2 + r.Choose(3)
+		c.perCall, c.deadline = nil, nil
+		for i := 0; i < c.callers; i++ {
+			c.perCall = append(c.perCall, 2+r.Choose(3))
+			c.deadline = append(c.deadline, []time.Duration{0, c.tieD}[r.Choose(2)])
+		}
+		c.pClose, c.pReset, c.pDup = 0, 0, 0
+	}
+	rc.Cfg["tie_ms"] = int(c.tieD / time.Millisecond)
 	rc.Net.ChunkMode = r.Choose(3)
 	// Connection breaks are observed by the reader only (after the reply), as in
 	// the property's fault model; a concurrent write error of another caller is
@@ -82,6 +102,10 @@ func c02Main(rc *RunCtx) {
 	c.w = w
 	plan := func(sc *simnet.Conn, nth int, call *Call, wid uint16) Action {
 		a := Action{}
+		if c.tieD > 0 {
+			a.Delay = c.tieD
+			return a
+		}
 		if simrt.Choose(100) >= c.pZero {
 			a.Delay = []time.Duration{time.Millisecond, 50 * time.Millisecond, 999 * time.Millisecond, time.Second, 1001 * time.Millisecond, 2500 * time.Millisecond}[simrt.Choose(6)]
 		}
@@ -115,6 +139,7 @@ func c02Main(rc *RunCtx) {
 				if d := c.deadline[ci]; d > 0 {
 					ctx, cancel := context.WithTimeout(context.Background(), d)
 					call.Ctx, call.Cancel = ctx, cancel
+					call.Deadline = simrt.S.Elapsed() + d
 				}
 				w.Exchange(u, call)
 				if call.Cancel != nil {
@@ -153,6 +178,9 @@ func c02OnEvent(rc *RunCtx, w *W1, e simnet.Event) {
 	}
 	if x.Ctx != nil && x.Ctx.Err() != nil {
 		return
+	}
+	if x.Deadline > 0 && e.At >= x.Deadline {
+		return // the deadline instant itself is a tie
 	}
 	if len(x.Timely) == 0 {
 		x.TimelyStep = e.Step
